@@ -162,11 +162,23 @@ CHECKS["C18"] = dict(
     note=BASE + " Signals, disk-full and races are not modelled; the Python oracle of ./check C18 mirrors Cli.cli_main.",
     tech="Coq proof over a CLI model with an OS oracle (reusing the C07 round-trip theorem) + exhaustive option-matrix runs of the real binary",
     ref="3 C18")
+CHECKS["C02"] = dict(
+    text="Theorems (Props/C02.v) over pass1/pass2 of Model/Passes.v, for EVERY segment list, item mix and device: C02_instruction_length "
+         "(encoder output = 2 x the regenerated operation-table length); C02_item (whatever pass 1 keeps, pass 2 advances identically and "
+         "emits exactly unit x advance bytes: both instruction lengths, .db odd/even with flash padding, .dw/.dd/.dq, EEPROM .byte, "
+         ".set/.def/.undef, labels); C02_org_gap (padding appends zeros up to exactly unit x address); C02_layout (every flash/EEPROM "
+         "segment of an arbitrarily interleaved program stands in the final image at unit x its start address with the length pass 1 "
+         "computed; images only grow by appending; images within the device); C02_label (a label's value is the address at which pass 2 "
+         "emits what follows it; data labels = segment start + reservations before); C02_hypotheses_met (pass 0 leaves no macro call in "
+         "code; every table device is below the 2^31 bound). The segment list is what the parser produced: the parser-level findings "
+         "`.org 0` and non-literal `.byte` are open known findings reported by the check." + PROG,
+    note=BASE + " Search: 4000 (quick) / 80000 (thorough) generated layouts against an independent reference layout in vlib/c02.py.",
+    tech="Coq proof (lock-step fold invariants over pass 1 / pass 2) + regenerated op/device tables + reference-layout oracle search", ref="3 C02")
 
 NOT_APPLICABLE = {}
 IN_PROGRESS = ("machinery built and green on the current tree (./check %s: model-vs-implementation correspondence + oracle search + "
                "kernel-checked examples); not claimed until its unbounded theorem is in Props/%s.v")
-for _p in ("C02", "C09"):
+for _p in ("C09",):
     NOT_APPLICABLE[_p] = IN_PROGRESS % (_p, _p)
 NOT_APPLICABLE["C11"] = ("not built yet: needs the file-system model (Model/Fs) and the directory-tree harness; the technique applies "
                          "(DESIGN.md section 3 C11) - no claim is made for it in this commit")
